@@ -493,7 +493,7 @@ pub fn generate(rng: &mut Rng, spread: &Spread) -> Scenario {
                     _ => limit + rng.range(1, 2000) as u32,
                 };
                 let how = *rng.pick(&[UdpHow::SendTo, UdpHow::TrySendTo, UdpHow::ConnSend, UdpHow::ConnTrySend]);
-                UdpOp { v6, lo, size: size.min(70_000), how }
+                UdpOp { v6, lo, size: size.min(70_000), how, bind_lo: matches!(topo, Topo::CrossV4 | Topo::CrossV6) && rng.chance(1, 4) }
             })
             .collect()
     } else {
